@@ -1022,6 +1022,21 @@ impl<'a> ExpressionLoweringManager<'a> {
     lambda_stmts.append(&mut lowered_s);
     self.synthetic_functions.append(&mut synthetic_functions);
 
+    let type_ = hir::FunctionType {
+      argument_types: vec![context_type.dupe()]
+        .into_iter()
+        .chain(fun_type_without_cx_argument_types)
+        .collect_vec(),
+      return_type: fun_type_without_cx_return_type,
+    };
+    // The context may mention generic types that the lambda's own signature does not
+    // (e.g. a captured `k: K` in a lambda of type `(V) -> V`).
+    let type_parameters = type_parameters
+      .into_iter()
+      .chain(collect_used_generic_types(&type_, &self.type_lowering_manager.generic_types))
+      .sorted()
+      .dedup()
+      .collect_vec();
     hir::Function {
       name: fn_name,
       parameters: vec![PStr::UNDERSCORE_THIS]
@@ -1029,13 +1044,7 @@ impl<'a> ExpressionLoweringManager<'a> {
         .chain(expression.parameters.parameters.iter().map(|it| it.name.name))
         .collect_vec(),
       type_parameters,
-      type_: hir::FunctionType {
-        argument_types: vec![context_type.dupe()]
-          .into_iter()
-          .chain(fun_type_without_cx_argument_types)
-          .collect_vec(),
-        return_type: fun_type_without_cx_return_type,
-      },
+      type_,
       body: lambda_stmts,
       return_value: lowered_e,
     }
